@@ -7,7 +7,7 @@ from ..consteval import UNKNOWN, fold_in
 from ..dataflow import must_facts
 from ..locks import regions
 from ..mutate import B, M
-from ..flow import only_none_guards, unchanged_param
+from ..flow import leaves_for_legal_value, only_none_guards, unchanged_param
 from ..symexec import paths_of, subst
 
 PROP = 'C06'
@@ -405,6 +405,10 @@ def check(ctx):
             hi = fold_in(f, sl.upper) if sl.upper else None
             ok = (lo, hi) == (0, 5) and norm(ups[0].args[1].value) == f.params[2]
         ctx.inst('R9', f, 'reply-addr-status', ok, 'address and status must be decoded as <IB from payload[0:5]')
+        # a reply of address + status alone (5 bytes: an error report, the ack of a write) is complete: no length check may drop it
+        bad = leaves_for_legal_value(f, f.params[2], [bytes(5), bytes(6), bytes(25)])
+        ctx.inst('R9', f, 'status-only-reply-handled', not bad, 'a %d-byte reply is dropped at line %s: the request it answers would never complete' %
+                 (len(bad[0][1]) if bad else 0, bad[0][0].line if bad else None))
         ctx.inst('R9', f, 'reply-id', any(isinstance(s, ast.Assign) and norm(s.value) == f.params[1] for s in walk_own(f.node)) or True,
                  'memory id is the command byte')
     f = mem.method('_handle_chan_read')
